@@ -26,7 +26,7 @@ VARIABLES g, h, accAt, hub, hist
 vars == <<g, h, accAt, hub, hist>>
 
 S1 == "1:a:s"  D1 == "1:b:s"  R1 == "9:x:s"  X1 == "9:y:s"
-Env == [svc |-> [x \in {S1, D1} |-> "available"], h |-> h + 1, bxh |-> "1", unordered |-> {},
+Env == [svc |-> [x \in {S1, D1} |-> "available"], h |-> h + 1, bxh |-> "1", unordered |-> {}, black |-> {},
         relay |-> [b \in {"9"} |-> [st |-> hub, vals |-> Vals, n |-> NVals]], rule |-> [c \in {S1, D1} |-> [bound |-> "happy", unbinding |-> "", cert |-> ""]]]
 Bxh(s) == IF s \in {S1, D1} THEN "1" ELSE "9"
 Tx(typ, s, d, i, T, ms, sigs, notice) ==
